@@ -128,9 +128,21 @@ def verdict_under_lock(ck, tm, rule):
     from . import roles, scans
     facts = tm.facts
     vtypes = []
+    def loads_a_counter(fn, depth=0, seen=None):
+        # the destructor, or a crate-local helper it calls, reads an atomic
+        seen = seen if seen is not None else set()
+        b = facts.body(fn)
+        if b is None or fn in seen or depth > 4:
+            return False
+        seen.add(fn)
+        for name, foreign, local, t in facts.callees_of(b):
+            if "atomic::Atomic" in name and name.split("::")[-1] == "load":
+                return True
+            if local and loads_a_counter(name, depth + 1, seen):
+                return True
+        return False
     for adt, dfn in tm.drop_impls():
-        b = facts.body(dfn)
-        if b and any("atomic::Atomic" in name and name.split("::")[-1] == "load" for name, foreign, local, t in facts.callees_of(b)):
+        if loads_a_counter(dfn):
             vtypes.append(adt)
     ck.floor(rule, "types-whose-destructor-reads-a-counter", len(vtypes), 1, tm.target)
     n = 0
